@@ -9,6 +9,7 @@ let iv_of x = match lst x with
   | _ -> raise (Bad "iv")
 let sx_iv (i : iv) = L [an i.st; an i.en; an i.vl]
 
+let sx_bool b = A (if b then "1" else "0")
 exception Panicked
 let ok = function Ok a -> a | Panic -> raise Panicked
 
@@ -43,6 +44,9 @@ let run_lap (args : sexp list) : sexp =
         | L [A "count"; s; e] -> emit (anat (ok (lcount !l (num s) (num e))))
         | L [A "cov"] -> emit (an (lcov !l))
         | L [A "len"] -> emit (A (string_of_int (List.length !l.ivs)))
+        | L [A "isempty"] -> emit (sx_bool (lis_empty !l))
+        | L [A "ivcmp"; a; b] -> let x = iv_of a and y = iv_of b in
+          emit (L [A "ivcmp"; sx_bool (iv_eq x y); A (match iv_cmp x y with Eq -> "eq" | Lt -> "lt" | Gt -> "gt")])
         | L [A "ivs"] -> emit (L (A "ivs" :: List.map sx_iv !l.ivs))
         | L [A "depth"] -> emit (L (A "d" :: List.map sx_iv (ok (ldepth w !l))))
         | L [A "ui"; bivs; bops] ->
@@ -70,7 +74,6 @@ let brec_of x = match lst x with
   | [c; s; e; v] -> { b_chr = chr c; b_st = num s; b_en = num e; b_val = znum v }
   | [c; s; e] -> { b_chr = chr c; b_st = num s; b_en = num e; b_val = Z0 }
   | _ -> raise (Bad "brec")
-let sx_bool b = A (if b then "1" else "0")
 
 let with_panic (f : (sexp -> unit) -> unit) : sexp =
   let out = ref [] in
@@ -171,7 +174,11 @@ let run_alg args = match args with
       emit (L [A "len"; an (blen a); an (blen b); an (blen c)]);
       emit (L [A "ov"; ov a b; ov b a; ov a c; ov a a]);
       emit (L [A "nov"; an (bn_overlap a b); an (bn_overlap b a); an (bn_overlap a c); an (bn_overlap a a)]);
-      emit (L [A "cmp"; sx_cmp (bcompare a b); sx_cmp (bcompare b a); sx_cmp (bcompare b c); sx_cmp (bcompare a c); sx_cmp (bcompare a a)]))
+      emit (L [A "cmp"; sx_cmp (bcompare a b); sx_cmp (bcompare b a); sx_cmp (bcompare b c); sx_cmp (bcompare a c); sx_cmp (bcompare a a)]);
+      (* setters: a gets b's chromosome, c's start, b's end *)
+      let a' = bset_end (bset_start (bset_chrom a b.b_chr) c.b_st) b.b_en in
+      let ((ch, s), e) = to_genomic_range a' in
+      emit (L [A "set"; sx_chr ch; an s; an e]))
   | _ -> raise (Bad "alg args")
 let run_split args = match args with
   | [s; e; b] -> with_panic (fun emit ->
@@ -259,6 +266,12 @@ let run_fmt args = match args with
 let run_parse args = match args with
   | [t; s; pt] -> with_panic (fun emit -> emit (parse_typed (atom t) (mk_parse_f pt) (bytes_of_hex (atom s))))
   | _ -> raise (Bad "parse args")
+let run_misc args = match args with
+  | [A "optf"; fs] -> with_panic (fun emit -> emit (A (hex_of_bytes (show_optional_fields (List.map (fun x -> bytes_of_hex (atom x)) (lst fs))))))
+  | [A "strand"; s] -> with_panic (fun emit ->
+      emit (match strand_from_str (bytes_of_hex (atom s)) with
+            | SOk st -> L [A "ok"; A (hex_of_bytes (show_strand st))] | SEmpty -> A "empty" | SInvalid -> A "invalid"))
+  | _ -> raise (Bad "misc args")
 let run_score args = match args with
   | [A "try"; v] -> with_panic (fun emit -> emit (match score_try_from (num v) with Some x -> L [A "ok"; an x] | None -> A "err"))
   | [A "str"; s] -> with_panic (fun emit ->
@@ -374,9 +387,11 @@ let run_xsort2 args = match args with
      | _ -> raise (Bad "xsort2"))
   | _ -> raise (Bad "xsort2 args")
 let run_tmpchk args = match args with
-  | [cfg; before; during; after] ->
+  | [cfg; before; during; after; opens] ->
     let names x = List.map (fun a -> bytes_of_hex (atom a)) x in
-    L [A "verdict"; sx_bool (tmp_ok (bytes_of_hex (atom cfg)) (names (tagged "before" before)) (List.map (fun d -> names (lst d)) (tagged "during" during)) (names (tagged "after" after)))]
+    let cfg = bytes_of_hex (atom cfg) in
+    L [A "verdict"; sx_bool (tmp_ok cfg (names (tagged "before" before)) (List.map (fun d -> names (lst d)) (tagged "during" during)) (names (tagged "after" after))
+                             && tmp_open_ok cfg (List.map (fun d -> names (lst d)) (tagged "opens" opens)))]
   | _ -> raise (Bad "tmpchk args")
 
 let run_case (x : sexp) : sexp =
@@ -394,6 +409,7 @@ let run_case (x : sexp) : sexp =
   | L (A "fmt" :: args) -> run_fmt args
   | L (A "parse" :: args) -> run_parse args
   | L (A "score" :: args) -> run_score args
+  | L (A "misc" :: args) -> run_misc args
   | L (A "read" :: args) -> run_read args
   | L (A "wr" :: args) -> run_wr args
   | L (A "skiprun" :: args) -> run_skiprun args
